@@ -106,7 +106,7 @@ def rand_shell(rng, l, K=None, M=None, t=None, center=None, emin=0.02, emax=None
             "_cls": ["exp:" + ecls] + (["coef:parallel"] if par else []) + (["coef:zeros"] if zer else []) + (["coef:small"] if sml else []) + (["coef:prenormalised"] if pre else [])}
 
 
-GEOM_CLASSES = ["coincident", "collinear", "coplanar", "general", "axis-zero", "axis-almost", "far", "near"]
+GEOM_CLASSES = ["coincident", "collinear", "coplanar", "general", "axis-zero", "axis-almost", "far", "near", "diagonal", "lattice"]
 
 
 def rand_centers(rng, n, cls=None, scale=1.5, offset=True):
@@ -136,6 +136,13 @@ def rand_centers(rng, n, cls=None, scale=1.5, offset=True):
         pts = rng.normal(size=(n, 3)) * scale
         if n > 1:
             pts[1:] += rng.choice([4.0, 12.0, 30.0]) * np.array([1.0, 0.3, -0.2])
+    elif cls == "diagonal":  # centres along a body or face diagonal: all coordinate differences equal in magnitude
+        sg = rng.choice([-1.0, 1.0], size=3) * (rng.random(3) < 0.8)
+        if not sg.any():
+            sg[0] = 1.0
+        pts = rng.normal(size=3) * scale + np.outer(rng.normal(size=n) * scale * 1.5, sg)
+    elif cls == "lattice":  # integer / half-integer coordinates (idealised geometries, grids): many exact coincidences of components
+        pts = np.round(rng.normal(size=(n, 3)) * scale * 2) / 2.0
     elif cls == "near":
         c0 = rng.normal(size=3) * scale
         pts = c0 + rng.normal(size=(n, 3)) * rng.choice([1e-8, 1e-6, 1e-5, 1e-4, 1e-3, 0.3])
@@ -386,6 +393,10 @@ def rand_points(rng, shells, n, extra_centers=()):
             p = c + rng.normal(size=3) * 1.2
         classes.add("pt:" + kind)
         pts.append([float(v) for v in p])
+    if n >= 2 and rng.random() < 0.15:
+        j, k = (int(x) for x in rng.permutation(n)[:2])
+        pts[k] = list(pts[j])  # the same point listed twice (grids assembled from overlapping atomic grids)
+        classes.add("pt:duplicate")
     return pts, sorted(classes)
 
 
